@@ -47,6 +47,13 @@ TEMPLATES = {
     "tl_kahapon": (["kahapon"], ["tl"]),
     "sv_imorgon": (["imorgon"], ["sv"]),
     "de_long": ([("d", 2), ". Oktober ", ("Y", 4), ", ", ("H", 2), ":", ("M", 2), " Uhr"], ["de"]),
+    # shapes that sanitize_date rewrites BEFORE it normalises whitespace (Croatian "d. m. yyyy. u", Russian "г.")
+    "hr_style_en": ([("d", 2), ". ", ("m", 2), ". ", ("Y", 4), ". u ", ("H", 2), ":", ("M", 2)], ["en"]),
+    "hr_style_hr": ([("d", 2), ". ", ("m", 2), ". ", ("Y", 4), ". u ", ("H", 2), ":", ("M", 2)], ["hr"]),
+    "hr_date_dot": ([("d", 2), ". ", ("m", 2), ". ", ("Y", 4), "."], ["hr"]),
+    "ru_num_g": ([("d", 2), ".", ("m", 2), ".", ("Y", 4), " г."], ["en", "ru"]),
+    "ru_year_g": ([("Y", 4), " г."], ["en", "ru"]),
+    "ru_g_end": ([("d", 2), " мая ", ("Y", 4), " г."], ["ru"]),
 }
 _RNG = {"Y": (1000, 9999), "m": (1, 12), "d": (1, 28), "H": (0, 23), "M": (0, 59), "S": (0, 59), "n": (0, 99), "e": (10 ** 9, 10 ** 10 - 1)}
 
